@@ -803,9 +803,18 @@ func (self *PathNode) handleChild(in *[]PathNode, lp *int, cp *int, p *thrift.Bi
 	var l = *lp
 	guardPathNodeSlice(&con, l)
 	if l >= len(con) {
+		n := len(con)
 		con = con[:l+1]
+		// slots skipped over (children stored by id) may be dirty from a previous use of this slice
+		for i := n; i < l; i++ {
+			con[i].Path = Path{}
+			con[i].Node = Node{}
+			con[i].Next = con[i].Next[:0]
+		}
 	}
 	v := &con[l]
+	// drop children left over from a previous use of this slot
+	v.Next = v.Next[:0]
 	l += 1
 
 	ss := p.Read
